@@ -479,14 +479,18 @@ func (rp *RepData) useCachedSegments(vodFS fs.FS, assetPath string, st *m.Segmen
 	return nil
 }
 
+// mediaPathRegexp matches exactly the media paths of mediaURI, capturing the value of the identifier.
+func mediaPathRegexp(mediaURI, identifier string) *regexp.Regexp {
+	rexStr := strings.ReplaceAll(regexp.QuoteMeta(mediaURI), regexp.QuoteMeta(identifier), `(\d+)`)
+	return regexp.MustCompile("^" + rexStr + "$")
+}
+
 func (rp *RepData) addRegExpAndInit(logger *slog.Logger, vodFS fs.FS, assetPath string) error {
 	switch {
 	case strings.Contains(rp.MediaURI, "$Number$"):
-		rexStr := strings.ReplaceAll(rp.MediaURI, "$Number$", `(\d+)`)
-		rp.mediaRegexp = regexp.MustCompile(rexStr)
+		rp.mediaRegexp = mediaPathRegexp(rp.MediaURI, "$Number$")
 	case strings.Contains(rp.MediaURI, "$Time$"):
-		rexStr := strings.ReplaceAll(rp.MediaURI, "$Time$", `(\d+)`)
-		rp.mediaRegexp = regexp.MustCompile(rexStr)
+		rp.mediaRegexp = mediaPathRegexp(rp.MediaURI, "$Time$")
 	default:
 		return fmt.Errorf("neither $Number$, nor $Time$ found in media")
 	}
